@@ -14,6 +14,8 @@ package main
 
 import (
 	"bufio"
+	"bytes"
+	"crypto/sha256"
 	"encoding/hex"
 	"encoding/json"
 	"flag"
@@ -27,6 +29,8 @@ import (
 	"runtime"
 	"runtime/debug"
 	"strings"
+	"sync"
+	"sync/atomic"
 	"syscall"
 	"time"
 
@@ -52,6 +56,9 @@ type request struct {
 	Anonymous bool            `json:"anonymous,omitempty"`
 	Topics    []string        `json:"topics,omitempty"`
 	Errors    []errDef        `json:"errors,omitempty"`
+	// kind "conc": the requests to run first one after the other and then from several goroutines on
+	// the same parsed objects; kind "flush": re-verify every retained tree
+	Batch []*request `json:"batch,omitempty"`
 }
 
 type response struct {
@@ -69,6 +76,16 @@ type response struct {
 	Tree      string `json:"tree,omitempty"`
 	Matched   string `json:"matched,omitempty"` // ParseError: name of the matched entry
 	ErrString string `json:"err_string,omitempty"`
+	// state / aliasing oracles (round 3)
+	InputMod    string          `json:"input_mod,omitempty"`    // the call changed its input bytes
+	RepeatBad   string          `json:"repeat_bad,omitempty"`   // the same call on the same objects a second time answered differently
+	AliasBad    string          `json:"alias_bad,omitempty"`    // the returned tree changed when the caller's data buffer was overwritten
+	RetainedBad string          `json:"retained_bad,omitempty"` // a tree returned by an earlier call changed while later calls ran
+	RetainedReq json.RawMessage `json:"retained_req,omitempty"` // ... the request that had returned it
+	ConcBad     string          `json:"conc_bad,omitempty"`     // concurrent calls on shared objects answered differently from sequential ones
+	ConcIdx     int             `json:"conc_idx,omitempty"`
+	Reused      bool            `json:"reused,omitempty"`
+	Slack       bool            `json:"slack,omitempty"` // the input was handed over with spare capacity behind it
 }
 
 // ---------- canonical serialisation of a value tree (mirrors RunC11.v ser_cval) ----------
@@ -185,61 +202,244 @@ func hexs(ss []string) []ethtypes.HexBytes0xPrefix {
 	return out
 }
 
+// ---------- worker state kept across requests (round 3) ----------
+//
+// The parsed objects (ParameterArray with its cached type trees, Entry, ABI) are kept and used again
+// by every later request that names the same definition, the way an application holds one ABI and
+// decodes many payloads with it; one request in eight builds fresh objects so that the first-use
+// path keeps being exercised.  Trees returned by earlier calls are retained and serialised again
+// after other calls have run.
+
+type bound struct {
+	kind   string
+	params abi.ParameterArray
+	entry  *abi.Entry
+	abi    abi.ABI
+	reused bool
+}
+
+type retainedTree struct {
+	tree *abi.ComponentValue
+	sum  [32]byte
+	rq   json.RawMessage
+}
+
+type wstate struct {
+	objs map[string]*bound
+	ring []retainedTree
+	n    int
+}
+
+const retainN = 48
+
+var ws = &wstate{objs: map[string]*bound{}}
+
+func (w *wstate) prepare(rq *request, fresh bool) (*bound, error) {
+	var key string
+	if rq.Kind == "error" {
+		eb, _ := json.Marshal(rq.Errors)
+		key = "error|" + string(eb)
+	} else {
+		key = fmt.Sprintf("%s|%s|%v|%s", rq.Kind, rq.Name, rq.Anonymous, string(rq.Params))
+	}
+	if !fresh {
+		if b, ok := w.objs[key]; ok {
+			cp := *b
+			cp.reused = true
+			return &cp, nil
+		}
+	}
+	b := &bound{kind: rq.Kind}
+	if len(rq.Params) > 0 {
+		if err := json.Unmarshal(rq.Params, &b.params); err != nil {
+			return nil, err
+		}
+	}
+	switch rq.Kind {
+	case "dec":
+	case "call":
+		b.entry = &abi.Entry{Type: abi.Function, Name: rq.Name, Inputs: b.params}
+	case "event":
+		b.entry = &abi.Entry{Type: abi.Event, Name: rq.Name, Inputs: b.params, Anonymous: rq.Anonymous}
+	case "error":
+		// spare capacity on purpose: an append to the caller's slice inside ParseError would land in it
+		b.abi = make(abi.ABI, 0, len(rq.Errors)+4)
+		for _, d := range rq.Errors {
+			var pa abi.ParameterArray
+			json.Unmarshal(d.Params, &pa)
+			b.abi = append(b.abi, &abi.Entry{Type: abi.Error, Name: d.Name, Inputs: pa})
+		}
+	default:
+		return nil, fmt.Errorf("bad kind")
+	}
+	if !fresh {
+		if len(w.objs) > 4096 {
+			w.objs = map[string]*bound{}
+		}
+		w.objs[key] = b
+	}
+	return b, nil
+}
+
+// run makes the call of the request on the prepared objects (no recover here).
+func (b *bound) run(rq *request, data []byte, topics []ethtypes.HexBytes0xPrefix) (tree *abi.ComponentValue, matched *abi.Entry, errString string, err error) {
+	switch b.kind {
+	case "dec":
+		tree, err = b.params.DecodeABIData(data, rq.Off)
+	case "call":
+		tree, err = b.entry.DecodeCallData(data)
+	case "event":
+		tree, err = b.entry.DecodeEventData(topics, data)
+	case "error":
+		var ok bool
+		matched, tree, ok = b.abi.ParseError(data)
+		if !ok {
+			err = fmt.Errorf("no error definition matched")
+		}
+		s, ok2 := b.abi.ErrorString(data)
+		if ok != ok2 && !(ok && s == "") {
+			panic(fmt.Sprintf("ErrorString ok=%v but ParseError ok=%v", ok2, ok))
+		}
+		errString = s
+	}
+	return
+}
+
+func serSum(tree *abi.ComponentValue) (sum [32]byte, p string) {
+	p = guard(func() {
+		var ser []byte
+		n := 0
+		serTree(tree, &ser, &n, nil)
+		sum = sha256.Sum256(ser)
+	})
+	return
+}
+
+// outcome of one call reduced to what must not depend on history: class and tree
+func (b *bound) outcome(rq *request, data []byte, topics []ethtypes.HexBytes0xPrefix) string {
+	var tree *abi.ComponentValue
+	var matched *abi.Entry
+	var err error
+	if p := guard(func() { tree, matched, _, err = b.run(rq, data, topics) }); p != "" {
+		return "panic: " + p
+	}
+	if err != nil {
+		return "error"
+	}
+	if tree == nil {
+		return "nil tree"
+	}
+	sum, p := serSum(tree)
+	if p != "" {
+		return "panic while reading the tree: " + p
+	}
+	m := ""
+	if matched != nil {
+		m = matched.Name
+	}
+	return fmt.Sprintf("ok %s %x", m, sum[:12])
+}
+
+func withSlack(b []byte) []byte {
+	arena := make([]byte, len(b)+384)
+	copy(arena, b)
+	for i := len(b); i < len(arena); i++ {
+		arena[i] = byte(0xe0 + i%29)
+	}
+	return arena[:len(b)]
+}
+
+func copyTopics(ts []ethtypes.HexBytes0xPrefix) []ethtypes.HexBytes0xPrefix {
+	out := make([]ethtypes.HexBytes0xPrefix, len(ts))
+	for i, t := range ts {
+		out[i] = append(ethtypes.HexBytes0xPrefix{}, t...)
+	}
+	return out
+}
+
+func briefRequest(rq *request) json.RawMessage {
+	cp := *rq
+	if len(cp.Data) > 8192 {
+		cp.Data = cp.Data[:8192] + "..."
+	}
+	b, _ := json.Marshal(&cp)
+	return b
+}
+
+// checkRetained serialises retained trees again; all = every one, otherwise only those that fall out
+// of the ring.
+func (w *wstate) checkRetained(rs *response, all bool) {
+	for len(w.ring) > 0 && (all || len(w.ring) > retainN) {
+		it := w.ring[0]
+		w.ring = w.ring[1:]
+		sum, p := serSum(it.tree)
+		if rs.RetainedBad != "" {
+			continue
+		}
+		if p != "" {
+			rs.RetainedBad, rs.RetainedReq = "reading it again panicked: "+p, it.rq
+		} else if sum != it.sum {
+			var d strings.Builder
+			var ser []byte
+			n := 0
+			serTree(it.tree, &ser, &n, &d)
+			rs.RetainedBad, rs.RetainedReq = "it now reads "+d.String(), it.rq
+		}
+	}
+}
+
 func handle(rq *request) *response {
 	rs := &response{}
+	ws.n++
+	switch rq.Kind {
+	case "flush":
+		ws.checkRetained(rs, true)
+		return rs
+	case "conc":
+		return handleConc(rq)
+	}
 	data, _ := hex.DecodeString(rq.Data)
 	if data == nil {
 		data = []byte{}
 	}
-	var params abi.ParameterArray
-	if len(rq.Params) > 0 {
-		if err := json.Unmarshal(rq.Params, &params); err != nil {
-			rs.Cls, rs.Err = 1, "harness: bad params: "+err.Error()
-			return rs
+	topics := hexs(rq.Topics)
+	// every second request hands the bytes over as the front part of a larger buffer (a read buffer
+	// with spare capacity, stale bytes behind the data): re-slicing past len(data) does not panic
+	// there, it reads what is not part of the input
+	if ws.n%2 == 0 {
+		data = withSlack(data)
+		for i := range topics {
+			topics[i] = withSlack(topics[i])
 		}
+		rs.Slack = true
 	}
-	var tree *abi.ComponentValue
-	var err error
-	var call func()
-	var matched *abi.Entry
-	switch rq.Kind {
-	case "dec":
-		call = func() { tree, err = params.DecodeABIData(data, rq.Off) }
-	case "call":
-		e := &abi.Entry{Type: abi.Function, Name: rq.Name, Inputs: params}
-		call = func() { tree, err = e.DecodeCallData(data) }
-	case "event":
-		e := &abi.Entry{Type: abi.Event, Name: rq.Name, Inputs: params, Anonymous: rq.Anonymous}
-		topics := hexs(rq.Topics)
-		call = func() { tree, err = e.DecodeEventData(topics, data) }
-	case "error":
-		a := abi.ABI{}
-		for _, d := range rq.Errors {
-			var pa abi.ParameterArray
-			json.Unmarshal(d.Params, &pa)
-			a = append(a, &abi.Entry{Type: abi.Error, Name: d.Name, Inputs: pa})
-		}
-		call = func() {
-			var ok bool
-			matched, tree, ok = a.ParseError(data)
-			if !ok {
-				err = fmt.Errorf("no error definition matched")
-			}
-			s, ok2 := a.ErrorString(data)
-			if ok != ok2 && !(ok && s == "") {
-				panic(fmt.Sprintf("ErrorString ok=%v but ParseError ok=%v", ok2, ok))
-			}
-			rs.ErrString = s
-		}
-	default:
-		rs.Cls, rs.Err = 1, "harness: bad kind"
+	b, perr := ws.prepare(rq, ws.n%8 == 7)
+	if perr != nil {
+		rs.Cls, rs.Err = 1, "harness: bad params: "+perr.Error()
 		return rs
 	}
+	rs.Reused = b.reused
+	params := b.params
+	origData := append([]byte{}, data...)
+	origTopics := copyTopics(topics)
+	var tree *abi.ComponentValue
+	var err error
+	var matched *abi.Entry
+	call := func() { tree, matched, rs.ErrString, err = b.run(rq, data, topics) }
 	var m0, m1 runtime.MemStats
 	runtime.ReadMemStats(&m0)
 	p := guard(call)
 	runtime.ReadMemStats(&m1)
 	rs.Alloc = m1.TotalAlloc - m0.TotalAlloc
+	// oracle: decoding reads its input, it does not write to it
+	if !bytes.Equal(data, origData) {
+		rs.InputMod = "the data passed in was modified by the call"
+	}
+	for i := range topics {
+		if !bytes.Equal(topics[i], origTopics[i]) {
+			rs.InputMod = fmt.Sprintf("topic %d passed in was modified by the call", i)
+		}
+	}
 	switch {
 	case p != "":
 		rs.Cls, rs.Panic = 2, p
@@ -249,6 +449,11 @@ func handle(rq *request) *response {
 		if len(rs.Err) > 200 {
 			rs.Err = rs.Err[:200]
 		}
+		// the same call once more on the same objects: still an error
+		if o := b.outcome(rq, append([]byte{}, origData...), copyTopics(origTopics)); o != "error" {
+			rs.RepeatBad = "first call: error, second call: " + o
+		}
+		ws.checkRetained(rs, false)
 		return rs
 	case tree == nil:
 		rs.Cls, rs.Panic = 2, "nil tree returned without an error"
@@ -262,15 +467,23 @@ func handle(rq *request) *response {
 	serTree(tree, &ser, &rs.Nodes, &desc)
 	rs.Tree = desc.String()
 	rs.DigLen, rs.DigA, rs.DigB = cv.Cks(ser)
+	sum0 := sha256.Sum256(ser)
 
-	// oracle: a returned tree can always be serialised to JSON (every formatting mode; the default
-	// and the alternative built-in value serializers)
+	// oracle: a returned tree can always be serialised to JSON (every formatting mode; the built-in
+	// value serializers in four combinations, with and without indentation / custom member names)
 	for mode := abi.FormatAsObjects; mode <= abi.FormatAsSelfDescribingArrays; mode++ {
-		for alt := 0; alt < 2; alt++ {
+		for alt := 0; alt < 4; alt++ {
 			s := abi.NewSerializer().SetFormattingMode(mode)
-			if alt == 1 {
+			switch alt {
+			case 1:
 				s = s.SetIntSerializer(abi.HexIntSerializer0xPrefix).SetByteSerializer(abi.Base64ByteSerializer).
 					SetAddressSerializer(abi.ChecksumAddrSerializer).SetFloatSerializer(abi.NumberIfFitsOrBase10StringFloatSerializer)
+			case 2:
+				s = s.SetIntSerializer(abi.JSONNumberIntSerializer).SetByteSerializer(abi.HexByteSerializer0xPrefix).
+					SetAddressSerializer(abi.HexAddrSerializerPlain).SetFloatSerializer(abi.Base10StringFloatSerializer).
+					SetPretty(true).SetDefaultNameGenerator(func(i int) string { return fmt.Sprintf("m%d", i) })
+			case 3:
+				s = s.SetIntSerializer(abi.NumberIfFitsOrBase10StringIntSerializer).SetAddressSerializer(abi.HexAddrSerializer0xPrefix)
 			}
 			var jb []byte
 			var jerr error
@@ -318,6 +531,90 @@ func handle(rq *request) *response {
 			}
 		}
 	}
+
+	// oracle: the same call once more on the same objects gives the same tree (the first call, the
+	// serialisers and the re-encoding above have left the parsed definition as it was)
+	want := fmt.Sprintf("ok %s %x", rs.Matched, sum0[:12])
+	if o := b.outcome(rq, append([]byte{}, origData...), copyTopics(origTopics)); o != want {
+		rs.RepeatBad = "first call: " + want + ", second call: " + o
+	}
+
+	// oracle: the tree owns its values - overwriting the caller's data buffer afterwards (a reused
+	// read buffer) does not change it.  Topics are left alone: a hashed topic is handed back as is.
+	for i := range data {
+		data[i] ^= 0xa5
+	}
+	if sum, p := serSum(tree); p != "" {
+		rs.AliasBad = "reading the tree after the buffer was overwritten panicked: " + p
+	} else if sum != sum0 && len(data) > 0 {
+		var d2 strings.Builder
+		var ser2 []byte
+		n2 := 0
+		serTree(tree, &ser2, &n2, &d2)
+		rs.AliasBad = "after the data buffer was overwritten the tree reads " + d2.String()
+	}
+
+	// retained results: serialise again what earlier calls returned
+	ws.checkRetained(rs, false)
+	if rs.Nodes < 20000 && rs.AliasBad == "" {
+		ws.ring = append(ws.ring, retainedTree{tree: tree, sum: sum0, rq: briefRequest(rq)})
+	}
+	return rs
+}
+
+// handleConc: the batch one after the other (this also parses every definition), then from 8
+// goroutines, in different orders, all sharing the parsed objects, for at least 3 rounds and until
+// the time budget is used.
+func handleConc(rq *request) *response {
+	rs := &response{}
+	n := len(rq.Batch)
+	bs := make([]*bound, n)
+	datas := make([][]byte, n)
+	topics := make([][]ethtypes.HexBytes0xPrefix, n)
+	want := make([]string, n)
+	for i, sub := range rq.Batch {
+		b, err := ws.prepare(sub, false)
+		if err != nil {
+			rs.Cls, rs.Err = 1, "harness: bad params in batch"
+			return rs
+		}
+		bs[i] = b
+		datas[i], _ = hex.DecodeString(sub.Data)
+		if datas[i] == nil {
+			datas[i] = []byte{}
+		}
+		topics[i] = hexs(sub.Topics)
+		want[i] = b.outcome(sub, append([]byte{}, datas[i]...), copyTopics(topics[i]))
+	}
+	var mu sync.Mutex
+	var wg sync.WaitGroup
+	const G = 8
+	start := time.Now()
+	budget := time.Duration(rq.Off) * time.Millisecond // the driver passes the time to spend in Off
+	var rounds int64
+	for g := 0; g < G; g++ {
+		wg.Add(1)
+		go func(g int) {
+			defer wg.Done()
+			for round := 0; round < 3 || time.Since(start) < budget; round++ {
+				for k := 0; k < n; k++ {
+					i := (k*(2*g+1) + g*n/G + round) % n
+					atomic.AddInt64(&rounds, 1)
+					got := bs[i].outcome(rq.Batch[i], append([]byte{}, datas[i]...), copyTopics(topics[i]))
+					if got != want[i] {
+						mu.Lock()
+						if rs.ConcBad == "" {
+							rs.ConcBad = "alone: " + want[i] + "; with other calls running: " + got
+							rs.ConcIdx = i
+						}
+						mu.Unlock()
+					}
+				}
+			}
+		}(g)
+	}
+	wg.Wait()
+	rs.Nodes = int(atomic.LoadInt64(&rounds))
 	return rs
 }
 
@@ -510,11 +807,25 @@ type driver struct {
 	maxRatio float64
 	thorough bool
 	samples  int
+	batch    []*request // reservoir sample for the concurrent section
+	nSeen    int
+	rb       *cv.Rand
+	nKeyed   int
+	nUnkeyed int
 }
 
 func (d *driver) fail(what, key string, rq *request, extra map[string]interface{}) {
-	if len(d.st.ImplFailures) >= 40 {
-		return
+	// failures classified under a known-finding key must not crowd out the others
+	if key != "" {
+		d.nKeyed++
+		if d.nKeyed > 15 {
+			return
+		}
+	} else {
+		d.nUnkeyed++
+		if d.nUnkeyed > 40 {
+			return
+		}
 	}
 	m := map[string]interface{}{"what": what, "key": key, "request": rq}
 	if len(rq.Data) > 8192 {
@@ -561,6 +872,26 @@ func (d *driver) run(rq *request, t *T, mut string) *response {
 	if rs.JSONBad != "" {
 		d.fail("a decoded tree cannot be serialised to JSON: "+rs.JSONBad, "", rq, map[string]interface{}{"tree": rs.Tree})
 	}
+	if rs.Slack {
+		d.st.Hit("buffer:spare-capacity")
+	} else {
+		d.st.Hit("buffer:exact")
+	}
+	if rs.Reused {
+		d.st.Hit("objects:reused")
+	} else {
+		d.st.Hit("objects:fresh")
+	}
+	d.stateOracles(rs, rq, mut)
+	// a sample of the requests is run again at the end from several goroutines at once
+	if want := 256; len(rq.Data) <= 4096 && rs.Cls != 2 {
+		d.nSeen++
+		if len(d.batch) < want {
+			d.batch = append(d.batch, rq)
+		} else if j := d.rb.Intn(d.nSeen); j < want {
+			d.batch[j] = rq
+		}
+	}
 	switch rs.Stable {
 	case 1:
 		d.st.Hit("stable:yes")
@@ -594,6 +925,58 @@ func (d *driver) run(rq *request, t *T, mut string) *response {
 		}
 	}
 	return rs
+}
+
+// stateOracles: the implementation-only oracles about state kept across calls and shared memory.
+func (d *driver) stateOracles(rs *response, rq *request, mut string) {
+	if rs.InputMod != "" {
+		d.fail("decoding modified its input: "+rs.InputMod, "", rq, map[string]interface{}{"mutation": mut})
+	}
+	if rs.RepeatBad != "" {
+		d.fail("decoding the same bytes twice with the same definition objects gave different results (the result depends on something other than the definition and the bytes): "+rs.RepeatBad, "", rq,
+			map[string]interface{}{"mutation": mut, "objects_reused_from_earlier_requests": rs.Reused,
+				"first_call_buffer_had_spare_capacity_behind_the_data": rs.Slack, "second_call_buffer": "exact copy"})
+	}
+	if rs.AliasBad != "" {
+		d.fail("a returned tree shares memory with the data buffer passed in (re-encoding it later gives something else): "+rs.AliasBad, "", rq,
+			map[string]interface{}{"mutation": mut, "tree": rs.Tree})
+	}
+	if rs.RetainedBad != "" {
+		var early request
+		json.Unmarshal(rs.RetainedReq, &early)
+		d.fail("a tree returned by an earlier call changed while later calls ran: "+rs.RetainedBad, "", &early,
+			map[string]interface{}{"later_request": rq, "note": "state kept across calls: replaying the single request does not reproduce it"})
+	}
+}
+
+// finish: re-verify all retained trees, then the concurrent section.
+func (d *driver) finish() {
+	rq := &request{Kind: "flush"}
+	if rs, died := d.wk.do(rq, 60*time.Second); died != "" {
+		d.fail("worker ended while re-verifying retained trees: "+died, "", rq, nil)
+		d.wk = startWorker()
+	} else {
+		d.stateOracles(rs, rq, "flush")
+	}
+	if len(d.batch) == 0 {
+		return
+	}
+	cq := &request{Kind: "conc", Batch: d.batch, Off: 1500}
+	if d.thorough {
+		cq.Off = 8000
+	}
+	os.WriteFile(filepath.Join(d.out, "current_case.json"), []byte(`{"mutation":"concurrent section"}`), 0o644)
+	rs, died := d.wk.do(cq, 120*time.Second)
+	if died != "" {
+		d.fail("the concurrent section (8 goroutines decoding with shared definition objects) did not return: "+died, "", &request{Kind: "conc"}, nil)
+		d.wk = startWorker()
+		return
+	}
+	d.st.Extra["concurrent_section"] = fmt.Sprintf("%d requests, 8 goroutines, %d calls in %d ms", len(d.batch), rs.Nodes, cq.Off)
+	if rs.ConcBad != "" {
+		d.fail("a call answered differently while other goroutines were decoding with the same definition objects: "+rs.ConcBad, "", d.batch[rs.ConcIdx],
+			map[string]interface{}{"note": "needs concurrent calls; replaying the single request does not reproduce it"})
+	}
 }
 
 func paramsJSON(t *T) json.RawMessage {
@@ -734,7 +1117,7 @@ func main() {
 	}
 	os.MkdirAll(*out, 0o755)
 	header := "From Coq Require Import String List NArith ZArith Uint63.\nFrom FFS Require Import Base.Bytes Base.Lit Abi.Types Abi.RunC11.\nImport ListNotations.\nOpen Scope string_scope. Open Scope N_scope."
-	d := &driver{out: *out, st: cv.NewStats(), seen: map[string]bool{}, thorough: *tier == "thorough"}
+	d := &driver{out: *out, st: cv.NewStats(), seen: map[string]bool{}, thorough: *tier == "thorough", rb: cv.NewRand(1111)}
 	d.w = cv.NewWriter(*out, "C11", header, "case", "mismatches", 16)
 	d.wk = startWorker()
 	defer d.wk.stop()
@@ -744,6 +1127,7 @@ func main() {
 		return
 	}
 	d.generate()
+	d.finish()
 	if err := d.w.Flush(); err != nil {
 		panic(err)
 	}
